@@ -301,6 +301,8 @@ impl Constant {
                 .value
                 .to_usize()
                 .map(|bits| {
+                    // shifting by the width or more leaves only copies of the sign bit
+                    let bits = bits.min(self.bits);
                     let value = self.value() >> bits;
                     let msb = self.value() >> (self.bits - 1);
                     if msb.is_zero() {
@@ -312,7 +314,14 @@ impl Constant {
                         fill | value
                     }
                 })
-                .unwrap_or_else(|| BigUint::from_u64(0).unwrap());
+                .unwrap_or_else(|| {
+                    let msb = self.value() >> (self.bits - 1);
+                    if msb.is_zero() {
+                        BigUint::from_u64(0).unwrap()
+                    } else {
+                        (BigUint::from_u64(1).unwrap() << self.bits) - BigUint::from_u64(1).unwrap()
+                    }
+                });
             Ok(Constant::new_big(r, self.bits))
         }
     }
